@@ -217,7 +217,9 @@ def run_job(arg):
         res["var_z"] = (xv - var) / sev if sev > 0 else (0.0 if abs(xv - var) <= 1e-12 * max(1.0, var) else math.inf)
         if abs(xv - var) > NSIG * sev + 1e-9 * max(1.0, var) + 2.0 * var / n:
             res["fails"].append("variance %.9g, theory %.9g, %.1f standard errors" % (xv, var, res["var_z"]))
-    if kind == "c":
+    if kind == "c" and "k" in flags:
+        res["ks_skipped"] = "mass below the smallest positive double is rounded to 0.0"
+    elif kind == "c":
         xs = np.sort(x)
         with np.errstate(all="ignore"):
             F = d.cdf(xs)
